@@ -3,6 +3,7 @@ C20 — History and calendar APIs return exactly the right window, correctly adj
 Theorems over `RQ/Model/Calendar.lean` and `RQ/Model/History.lean` (instance `R := Rat`).
 -/
 import RQ.Model.History
+import RQ.Model.Weekly
 import RQ.Lemmas.Sorted
 import Mathlib.Tactic.Linarith
 import Mathlib.Tactic.FieldSimp
@@ -264,5 +265,91 @@ theorem early_return_unsound_witness :
 /-- non-vacuity of `adjust_spec`: one split (factor 1 → 2) inside the window -/
 example : adjustBars [⟨1, 10, 10, 10, 10, 100, 1000, 11, 9⟩, ⟨5, 5, 5, 5, 5, 200, 1000, 5.5, 4.5⟩] [(0, 1), (4, 2)] AdjustType.pre 5
     = some [⟨1, 5, 5, 5, 5, 200, 1000, 5.5, 4.5⟩, ⟨5, 5, 5, 5, 5, 200, 1000, 5.5, 4.5⟩] := by decide +kernel
+
+/-! ### Weekly bars ('1w'): aggregation of the daily bars of each calendar week -/
+
+/-- grouping into weeks neither loses, duplicates nor reorders a daily bar -/
+theorem groupWeeks_flatten (l : List Bar) : (groupWeeks l).flatten = l := by
+  induction l with
+  | nil => rfl
+  | cons b rest ih =>
+    simp only [groupWeeks]
+    cases h : groupWeeks rest with
+    | nil => rw [h] at ih; simp only [List.flatten_nil] at ih; simp [← ih]
+    | cons g gs =>
+      rw [h] at ih
+      cases g with
+      | nil => simp only [List.flatten_cons, List.nil_append] at ih; simp [ih]
+      | cons c g' =>
+        simp only
+        split
+        · simp only [List.flatten_cons, List.cons_append] at ih ⊢; rw [ih]
+        · simp only [List.flatten_cons, List.cons_append, List.nil_append] at ih ⊢; rw [ih]
+
+/-- the weekly open is the open of the week's first daily bar -/
+theorem weekAgg_open (f : Bar) (r : List Bar) : (weekAgg f r).openP = f.openP := by
+  unfold weekAgg
+  induction r generalizing f with
+  | nil => rfl
+  | cons b rest ih => simp only [List.foldl_cons]; rw [ih]
+
+/-- the weekly close is the close of the week's last daily bar -/
+theorem weekAgg_close (f : Bar) (r : List Bar) : (weekAgg f r).closeP = ((f :: r).getLast (List.cons_ne_nil _ _)).closeP := by
+  unfold weekAgg
+  induction r generalizing f with
+  | nil => rfl
+  | cons b rest ih =>
+    simp only [List.foldl_cons]
+    rw [ih]
+    cases rest with
+    | nil => rfl
+    | cons c rest' => simp [List.getLast_cons]
+
+/-- the weekly high is at least every daily high of the week, the weekly low at most every daily low -/
+theorem weekAgg_high_low (f : Bar) (r : List Bar) :
+    ∀ b ∈ f :: r, b.highP ≤ (weekAgg f r).highP ∧ (weekAgg f r).lowP ≤ b.lowP := by
+  unfold weekAgg
+  induction r generalizing f with
+  | nil => intro b hb; simp only [List.mem_singleton] at hb; subst hb; exact ⟨le_refl _, le_refl _⟩
+  | cons c rest ih =>
+    intro b hb
+    simp only [List.foldl_cons]
+    have key := ih ⟨c.dt, f.openP, c.closeP, (if c.highP > f.highP then c.highP else f.highP), (if c.lowP < f.lowP then c.lowP else f.lowP),
+      f.volume + c.volume, f.turnover + c.turnover, f.limitUp, f.limitDown⟩
+    simp only [List.mem_cons] at hb
+    rcases hb with rfl | rfl | hb
+    · obtain ⟨h1, h2⟩ := key _ List.mem_cons_self
+      simp only at h1 h2
+      constructor
+      · refine le_trans ?_ h1; split_ifs with h <;> [exact le_of_lt h; exact le_refl _]
+      · refine le_trans h2 ?_; split_ifs with h <;> [exact le_of_lt h; exact le_refl _]
+    · obtain ⟨h1, h2⟩ := key _ List.mem_cons_self
+      simp only at h1 h2
+      constructor
+      · refine le_trans ?_ h1; split_ifs with h <;> [exact le_refl _; exact not_lt.mp h]
+      · refine le_trans h2 ?_; split_ifs with h <;> [exact le_refl _; exact not_lt.mp h]
+    · exact key b (List.mem_cons_of_mem _ hb)
+
+/-- at most `n` weekly bars are returned -/
+theorem weeklyBars_length (daily : List Bar) (n : Nat) : (weeklyBars daily n).length ≤ n := by
+  unfold weeklyBars
+  simp only [List.length_drop]
+  omega
+
+/-- without adjustment the weekly answer is a function of the daily window alone -/
+theorem weekly_none_is_aggregation (bars : List Bar) (isCS : Bool) (facs : Option (List (Nat × R))) (n dt orig : Nat) (inow skip : Bool)
+    (hne : (if skip && isCS then filteredBars bars else bars).isEmpty = false) :
+    ∃ w, historyBarsWeekly bars isCS false facs n dt inow skip .none orig = some (weeklyBars w n) := by
+  unfold historyBarsWeekly
+  simp only [hne, Bool.false_eq_true, if_false]
+  have h : (AdjustType.none == AdjustType.none || false) = true := by decide
+  rw [if_pos h]
+  exact ⟨_, rfl⟩
+
+/-- non-vacuity: Thu 2020-01-02, Fri 2020-01-03, Mon 2020-01-06 — two weeks; the first week's bar has the open of Thursday, the close of
+Friday, the higher high, the lower low and the summed volume -/
+example : (weeklyBars [⟨20200102, 10, 11, 12, 9, 100, 1000, 0, 0⟩, ⟨20200103, 11, 12, 13, 10, 200, 2000, 0, 0⟩, ⟨20200106, 12, 12, 12, 12, 50, 600, 0, 0⟩] 5).map
+    (fun b => (b.openP, b.closeP, b.highP, b.lowP, b.volume)) = [(10, 12, 13, 9, 300), (12, 12, 12, 12, 50)] := by
+  decide +kernel
 
 end RQ.Props.C20
